@@ -1,0 +1,32 @@
+//go:build verif
+
+package resolver
+
+import "sync/atomic"
+
+// Verification gate point of groupLookup's leader closure (build tag "verif"
+// only). A conformance harness installs a gate function to observe, from the
+// goroutine that runs it, the moment a shared lookup's leader closure starts -
+// registered with the singleflight group, capacity slots not yet asked for -
+// and may block there so that other callers join the flight before the slot
+// check. With no gate installed the call is a no-op.
+
+// VerifFlightGateFunc receives the singleflight key.
+type VerifFlightGateFunc func(key string)
+
+var verifFlightGateFn atomic.Pointer[VerifFlightGateFunc]
+
+// SetVerifFlightGate installs (or, with nil, removes) the gate function.
+func SetVerifFlightGate(f VerifFlightGateFunc) {
+	if f == nil {
+		verifFlightGateFn.Store(nil)
+		return
+	}
+	verifFlightGateFn.Store(&f)
+}
+
+func verifFlightGate(key string) {
+	if f := verifFlightGateFn.Load(); f != nil {
+		(*f)(key)
+	}
+}
